@@ -456,6 +456,9 @@ func runPropertyQuiet(prop, mutate, scratch string, start time.Time) (int, []str
 
 func runProperty(prop, tier string, seed uint64, runs int, mutate, scratch string, start time.Time, writeEvidence bool) int {
 	bin := build(scratch, mutate)
+	if prop == "C20" {
+		codecReference(bin, scratch)
+	}
 	meta := getMeta(bin, prop, tier, scratch)
 	buildS := time.Since(start).Seconds()
 
@@ -743,6 +746,9 @@ func cmdReplay(args []string) int {
 	}
 	defer os.RemoveAll(scratch)
 	bin := build(scratch, "")
+	if rf.Property == "C20" {
+		codecReference(bin, scratch)
+	}
 	abs, _ := filepath.Abs(args[0])
 	rr, err := runWorker(bin, workerSpec{Property: rf.Property, Mode: "replay", ReplayFile: abs}, scratch, 5*time.Minute)
 	if err != nil {
@@ -806,4 +812,16 @@ func raceStep(scratch string, seed uint64) (int, string) {
 		}
 	}
 	return n, ""
+}
+
+// codecReference has C20's reference results computed with one fresh process per corpus entry and makes
+// every later child of this driver (workers, replay confirmations) use them.
+func codecReference(bin, scratch string) {
+	ref := filepath.Join(scratch, "codec-reference.json")
+	cmd := exec.Command(bin, "-test.run", "^TestCodecRef$", "-test.timeout", "10m")
+	cmd.Env = append(os.Environ(), "KMIPVERIF_REF_ALL="+ref)
+	if out, err := cmd.CombinedOutput(); err != nil {
+		trouble("computing the codec reference in fresh processes failed: %v\n%s", err, tail(string(out), 30))
+	}
+	os.Setenv("KMIPVERIF_CODEC_REF", ref)
 }
